@@ -1,5 +1,5 @@
 (* Props/C07.v -- C07: nothing is ever placed above address $FFFF. *)
-From Az65 Require Import Base Token Expr ExprParse Linker Asm AsmFacts Arch ArchTables Run ArchFacts.
+From Az65 Require Import Base Token Expr ExprParse Linker LinkerFacts Asm AsmFacts Arch ArchTables Run ArchFacts.
 
 (* every reachable state of every program on every architecture has 0 <= here <= $10000 *)
 Theorem C07_address_bounded :
@@ -20,6 +20,14 @@ Proof.
   exact T.
 Qed.
 Print Assumptions C07_step_bounded.
+
+(* ... and the link step places nothing: whatever is still to be patched (bytes, words, branch distances, fills) is written
+   into bytes that were placed -- and counted -- when their statement was read; the image keeps its length *)
+Theorem C07_link_places_nothing :
+  forall st refs (ls : list link) (d d' : list N),
+    link_all st refs ls d = Ok d' -> length d' = length d.
+Proof. intros st refs ls d d' H. exact (proj1 (link_all_frame st refs ls d d' H)). Qed.
+Print Assumptions C07_link_places_nothing.
 
 (* non-vacuity: ending exactly at $10000 is accepted, one byte more is rejected -- for a value
    known now, a value only known at link time, and an instruction *)
